@@ -132,6 +132,24 @@ def c16_4(ctx):
     for c in comps:
         if N(c.generators[0].iter) != 'self' or not c.generators[0].ifs or not isinstance(c.generators[0].ifs[0], ast.Compare) or not isinstance(c.generators[0].ifs[0].ops[0], ast.NotIn):
             ctx.fail(f, c, 'difference does not keep the elements of self that are not in the argument, in order: %s' % U(c))
+    # a scalar operand is compared as an element (`o not in [other]`), a list operand as a collection (`o not in other`): on every exit
+    for p in sym_paths(f):
+        if p.term != 'return' or p.value is None:
+            continue
+        for c in [x for x in ast.walk(p.value) if isinstance(x, ast.ListComp) and x.generators[0].ifs and isinstance(x.generators[0].ifs[0], ast.Compare)]:
+            ctx.count(1, f.where(p.node))
+            box = N(c.generators[0].ifs[0].comparators[0])
+            if p.holds('is_list(%s)' % o, True):
+                want_box = o
+            elif p.holds('is_list(%s)' % o, False):
+                want_box = '[%s]' % o
+            else:
+                ctx.fail(f, p.node, 'u - x: the elements are tested with `%s` on a path that does not know whether x is a list: a scalar must be compared as an element (`not in [x]`), a list as a collection' % U(c.generators[0].ifs[0]),
+                         witness="ulist(['ab', 'a']) - 'abc' must leave both elements ('a' in 'abc' is a substring test)")
+                continue
+            if box != NS(want_box):
+                ctx.fail(f, p.node, 'u - x with x %s list tests `%s`, expected membership in `%s`' % ('a' if want_box == o else 'not a', U(c.generators[0].ifs[0]), want_box),
+                         witness="ulist(['ab', 'a']) - 'abc'")
     f = ctx.repo.fn('_ulist:ulist.__and__')
     ctx.count(1, f.where())
     comps = [c for c in ast.walk(f.node) if isinstance(c, ast.ListComp)]
